@@ -614,10 +614,17 @@ func (i *IPv6Routing) SerializeTo(b gopacket.SerializeBuffer, opts gopacket.Seri
 	bytes[1] = byte(hdrExtLen)
 	bytes[2] = i.RoutingType
 	bytes[3] = i.SegmentsLeft
-	copy(bytes[4:8], i.Reserved)
+	n := copy(bytes[4:8], i.Reserved)
+	for k := 4 + n; k < 8; k++ {
+		bytes[k] = 0
+	}
 	for i, ip := range i.SourceRoutingIPs {
 		offset := 8 + i*16
-		copy(bytes[offset:offset+16], ip.To16())
+		// To16 is nil for an address that is neither 4 nor 16 octets long
+		n := copy(bytes[offset:offset+16], ip.To16())
+		for k := offset + n; k < offset+16; k++ {
+			bytes[k] = 0
+		}
 	}
 	return nil
 }
